@@ -221,7 +221,7 @@ fn main() {
     rep.count_n("corpus_sequences", n_corpus);
     let mut rng = Rng::new(args.seed);
     if args.replay.is_none() {
-        let n_seq = if args.thorough() { 240 } else { 14 };
+        let n_seq = if args.thorough() { 90 } else { 14 };
         for i in 0..n_seq {
             let len = if i % 8 == 0 { 12 } else { 2 + rng.usize(7) };
             let max_id = 2 + rng.below(3);
@@ -314,7 +314,7 @@ fn main() {
     if args.thorough() && args.replay.is_none() {
         let mut kl = vec![];
         let mut kc = vec![];
-        for i in 0..120 {
+        for i in 0..60 {
             let len = 6 + rng.usize(7);
             let ops: Vec<Op> = (0..len).map(|_| gen_op(&mut rng, 4)).collect();
             let c = Case { cfg: Cfg::open(), ops, k: usize::MAX };
@@ -341,6 +341,18 @@ fn main() {
         }
     }
 
+    // model self-test: on the corpus witnesses the model of the pinned tree must be told apart
+    // from the model of the repaired code by the same comparison
+    {
+        let mut l = vec![];
+        for (cfg, ops, _) in seqs.iter().take(n_corpus as usize) {
+            l.push(format!("crash {} {} 1000000", cfg.render(), render_ops(ops)));
+            l.push(format!("crashlegacy {} {} 1000000", cfg.render(), render_ops(ops)));
+        }
+        let r = driver::batch(&exe, &l);
+        let detected = r.chunks(2).filter(|c| c[0] != c[1]).count();
+        rep.extra.insert("model_self_test".into(), json!({"mutants": r.len() / 2, "detected": detected}));
+    }
     if let Some(body) = first_break {
         if rep.spec_violations.is_empty() {
             rep.correspondence_break(
